@@ -101,15 +101,24 @@ func zzC51Ctx() context.Context {
 
 // zzC51: a gateway whose chord node has an arbitrary successor list (length <= L, addresses arbitrary one-byte strings so that
 // virtual nodes of one physical node share an address, at most one nil entry) is asked for gateway candidates.
-func zzC51() {
+func zzC51(small bool) {
 	L := rt.Bound("L")
-	n := rt.Choose("successors", L+1)
+	n := L
+	if !small {
+		n = rt.Choose("successors", L+1)
+	}
 	kv := &zzC51KV{}
 	addr := make([]string, n+1) // addr[0]: this node; addr[i]: i-th successor
 	succs := make([]chord.VNode, n)
-	nilAt := rt.Choose("nil-successor", n+1) - 1
+	nilAt := -1
+	if !small {
+		nilAt = rt.Choose("nil-successor", n+1) - 1
+	}
 	for i := 0; i <= n; i++ {
 		addr[i] = string(rt.BytesN("addr", 1))
+		if small && i != 1 {
+			addr[i] = []string{"a", "", "c"}[i%3] // small configuration: only the first successor's address is symbolic
+		}
 		ident := &protocol.Node{Id: uint64(100 + i), Address: addr[i]}
 		if i == 0 {
 			kv.self = ident
@@ -130,7 +139,7 @@ func zzC51() {
 	}
 	for i := range kv.state {
 		kv.state[i] = rt.U8("record-state")
-		rt.Assume(kv.state[i] < zzC51States)
+		rt.Assume(int(kv.state[i]) < rt.Bound("STATES"))
 	}
 	kv.succs = succs
 	srv := &Server{Config: Config{
@@ -242,6 +251,7 @@ func zzC51() {
 }
 
 // ZZ_C51_GetNodes: lookups one after the other (promise.All substituted). ZZ_C51_Concurrent: the real promise.All and
-// context.WithTimeout under the goroutine scheduler.
-func ZZ_C51_GetNodes()   { zzC51() }
-func ZZ_C51_Concurrent() { zzC51() }
+// context.WithTimeout under the goroutine scheduler, on the small configuration (exactly L successors, no nil entry, only
+// the first successor's address symbolic: equal to this node's, to the second successor's, or different).
+func ZZ_C51_GetNodes()   { zzC51(false) }
+func ZZ_C51_Concurrent() { zzC51(true) }
